@@ -117,7 +117,7 @@ def check_accessors(run, F, E):
     # snapshot would still answer every query alike at construction time, but `&control.context()` would not be the machine's context)
     for tk in ('ConstControlT', 'ControlT'):
         for ctor in F.find(tk):
-            if ctor.kind != 'ctor' or ctor.d.get('copy') or ctor.d.get('move') or not ctor.params:
+            if ctor.kind != 'ctor' or ctor.d.get('ctorkind') in ('copy', 'move') or not ctor.params:
                 continue
             bound = bound_members(F, ctor, 0)
             rec = F.rec_by_name.get(ctor.cls) or {}
